@@ -1754,3 +1754,55 @@ def r_contraction_rules_cover_reduced_vars(prog: Program, col: Collector, refs: 
                   f"`{rv}` is only ever intersected with / tested against the variables of the operands ({len(narrow)} use(s)): a reduced variable that no operand mentions is "
                   "never reduced by the rebuilt contraction, so its multiplicity (n-fold sum / power) is dropped", f.loc(narrow[0]))
     col.cur.analysed["contraction_rules_with_subsets"] = n
+
+
+# ---------------------------------------------------------------------- fusing an inner contraction needs the same reduction
+def r_nested_fusion_same_red_op(prog: Program, col: Collector, refs: Refs, cat: Catalogue, rule: str):
+    """red_V ( ... red'_W (inner) ... )  =  red_{V ∪ W} ( ... inner ... ) only when red' is red (or one of them is absent): a rule that
+    returns a contraction over `reduced_vars | X.reduced_vars` for an inner contraction X must have tested X.red_op against its own
+    red_op on the way; otherwise a logaddexp mixture is merged into an outer max (or add) and the inner sum is reduced with the wrong op."""
+    col.rule(rule, "an inner contraction's reduced variables are merged into the outer reduction only under a test that the two reductions agree", floor=2)
+    n = 0
+    seen = set()
+    for r in cat.registrations:
+        f = r.target
+        if f is None or not r.pattern or isinstance(f.node, ast.Lambda) or f.fq in seen or len(f.positional) < 3:
+            continue
+        if refs.resolve(r.pattern[0]) != "funsor.cnf.Contraction":
+            continue
+        if not (r.registry.startswith("funsor.interpretations.") or r.registry.startswith("funsor.optimizer.")):
+            continue
+        seen.add(f.fq)
+        R, V = f.positional[0], f.positional[2]
+        for c in walk_no_nested(f.node):
+            if not (isinstance(c, ast.Call) and refs.resolve(c.func) == "funsor.cnf.Contraction" and len(c.args) >= 3):
+                continue
+            v3 = c.args[2]
+            inner = None
+            for b in ast.walk(v3):
+                if isinstance(b, ast.BinOp) and isinstance(b.op, ast.BitOr):
+                    for side in (b.left, b.right):
+                        if isinstance(side, ast.Attribute) and side.attr == "reduced_vars" and isinstance(side.value, ast.Name):
+                            inner = side.value.id
+            if inner is None:
+                continue
+            n += 1
+            # tests that mention <inner>.red_op together with the rule's own red_op (or ops.null), on the way to this call
+            st = c
+            while not isinstance(st, ast.stmt):
+                st = f.module.parent.get(st)
+            tests = [a.test for a in f.module.ancestors(c) if isinstance(a, ast.If) and f.module.enclosing_function(a) is f.node]
+            for g in walk_no_nested(f.node):
+                if isinstance(g, ast.If) and g.lineno < st.lineno and g.body and isinstance(g.body[-1], (ast.Return, ast.Continue, ast.Raise)):
+                    tests.append(g.test)
+            def relates(t):
+                has_inner = any(isinstance(x, ast.Attribute) and x.attr == "red_op" and isinstance(x.value, ast.Name) and x.value.id == inner for x in ast.walk(t))
+                has_outer = any(isinstance(x, ast.Name) and x.id == R for x in ast.walk(t))
+                cmp_ = any(isinstance(x, ast.Compare) for x in ast.walk(t))
+                return has_inner and has_outer and cmp_
+            # the registration pattern may pin both reductions to the same op class
+            col.check(any(relates(t) for t in tests), f"{f.fq}::{norm(v3)}",
+                      f"`{inner}.red_op` is compared with `{R}` before the two sets of reduced variables are merged",
+                      f"the reduced variables of the inner contraction `{inner}` are merged into the outer reduction without comparing `{inner}.red_op` with `{R}`: when the outer "
+                      f"reduction is another op (a max or add around a logaddexp mixture) the inner variables end up reduced with the wrong op", f.loc(c))
+    col.cur.analysed["nested_fusion_sites"] = n
